@@ -121,6 +121,20 @@ type Property interface {
 	Shrink(params json.RawMessage) []json.RawMessage
 }
 
+// BlockProperty is optionally implemented by properties whose consecutive
+// run indices share expensive setup (a loaded program): indices are then
+// handed to workers in blocks of BlockSize.
+type BlockProperty interface {
+	BlockSize(env *Env) int
+}
+
+func nextIndex(index, block, workers int) int {
+	if (index+1)%block != 0 {
+		return index + 1
+	}
+	return index + 1 + block*(workers-1)
+}
+
 // ParentPhase is optionally implemented by properties that have tiers which
 // are not seeded in-process runs (fresh-process sampling, race detector).
 type ParentPhase interface {
@@ -313,7 +327,13 @@ func workerMain(p Property, env *Env) {
 				}
 			}
 		}()
-		for index := env.Worker; total <= 0 || index < total; index += env.Workers {
+		block := 1
+		if bp, ok := p.(BlockProperty); ok {
+			block = bp.BlockSize(env)
+		}
+		// run `index` belongs to worker (index/block) mod workers: a property
+		// with expensive per-program setup keeps one program on one worker
+		for index := env.Worker * block; total <= 0 || index < total; index = nextIndex(index, block, env.Workers) {
 			if time.Now().After(env.Deadline) {
 				break
 			}
